@@ -78,8 +78,12 @@ func runBigCase(idx int, dir, tier string, seed int64) *caseResult {
 	at := func(key, cmp string, vals ...string) *chain {
 		return &chain{Terms: []*term{{Atom: &atom{Key: key, Cmp: cmp, Vals: vals, BareKey: true}}}}
 	}
-	and := func(a, b *chain) *chain { return &chain{Terms: []*term{{Sub: a, Parens: 1}, {Sub: b, Parens: 1}}, Ops: []string{"and"}} }
-	or := func(a, b *chain) *chain { return &chain{Terms: []*term{{Sub: a, Parens: 1}, {Sub: b, Parens: 1}}, Ops: []string{"or"}} }
+	and := func(a, b *chain) *chain {
+		return &chain{Terms: []*term{{Sub: a, Parens: 1}, {Sub: b, Parens: 1}}, Ops: []string{"and"}}
+	}
+	or := func(a, b *chain) *chain {
+		return &chain{Terms: []*term{{Sub: a, Parens: 1}, {Sub: b, Parens: 1}}, Ops: []string{"or"}}
+	}
 	h1, h2 := fmt.Sprintf("h%d", r.Intn(nHosts)), fmt.Sprintf("h%d", r.Intn(nHosts))
 	lastBlk := fmt.Sprintf("b%d", (n-1)/4096)
 	add(at("host", "=", h1), "uid")
@@ -110,7 +114,7 @@ func runBigCase(idx int, dir, tier string, seed int64) *caseResult {
 	caseID := fmt.Sprintf("big-%d(n=%d,first-flush-at=%d)", idx, n, first)
 	pdir := filepath.Join(dir, "p")
 	h := &histRunner{res: res, caseID: caseID, placement: "container-boundaries", dir: pdir, ds: ds, ev: newEvaluator(), rnd: r,
-		queries: queries, flagged: map[int]bool{}, skipHeavy: quick}
+		queries: queries, flagged: map[int]bool{}, skipHeavy: quick, threeContainers: n > 131072}
 	now := time.Now().UnixMilli()
 	h.t0 = now - now%3600_000 - 2*3600_000
 	h.ts = h.t0 + 600_000
